@@ -599,7 +599,9 @@ func (ck *Check) reportIsolated(v viol, seed uint64, tier string) string {
 	reproduced := fails(tape)
 	shrinkDeadline = time.Now().Add(40 * time.Second)
 	if reproduced {
-		small = Shrink(tape, fails, max)
+		if v.out.Class != "child-timeout" { // every attempt on a hanging run costs a full timeout
+			small = Shrink(tape, fails, max)
+		}
 	} else {
 		fmt.Fprintln(os.Stderr, "warning: violation did not reproduce in a fresh process from its tape; reporting unshrunk")
 	}
